@@ -435,6 +435,10 @@ func run(seed int64, n int, out string, args []string) {
 		ws := strings.Fields(w)
 		plan = append(plan, job{vets: []vetItem{{"SELECT " + w, false, false}}, run: func() { opxCase(o, ws) }})
 	}
+	for _, w := range qryWitnesses {
+		qt := w
+		plan = append(plan, job{vets: []vetItem{{qt, false, false}}, run: func() { qryCase(o, qt) }})
+	}
 	ps := newParseStream(o, g)
 	defer ps.close()
 	plan = append(plan, ps.witnesses()...)
@@ -458,6 +462,10 @@ func run(seed int64, n int, out string, args []string) {
 	for i := 0; i < n/6; i++ {
 		text := genSelText(g)
 		plan = append(plan, job{vets: []vetItem{{text, false, false}}, run: func() { selCase(o, text, "generated") }})
+		if i%2 == 0 {
+			qt := genQryCaseText(g)
+			plan = append(plan, job{vets: []vetItem{{qt, false, false}}, run: func() { qryCase(o, qt) }})
+		}
 	}
 	plan = append(plan, ps.plan(n-nEsc-nScan-nUnary)...)
 
